@@ -54,7 +54,7 @@ def init_zygote():
 # generation of specs
 
 NAMES_S = ["Linus", "Arnold", "Jerry", "Elizer", "A very long name which needs truncation", "", "ü-ñ", "x",
-           "a|b", " padded ", "semi;colon,comma:colon", "Jerry"]
+           "a|b", " padded ", "semi;colon,comma:colon", "Jerry", "\u65e5\u672c\u8a9e", "e\u0301te\u0301", "two\nlines"]
 
 
 def gen_enum(rng):
